@@ -31,6 +31,8 @@ func init() {
 			{ID: "C02.R7", Floor: 3, Doc: "nullable destinations: nil for null, fresh value otherwise", Run: c02r7},
 			{ID: "C02.R8", Floor: 1, Doc: "varint trimming: a leading byte is dropped only when it is 0x00 followed by a byte with the top bit clear, or 0xFF followed by a byte with the top bit set", Run: c02r8},
 			{ID: "C02.R9", Floor: 1, Doc: "the sign extension of a short varint subtracts exactly 2^(8*len)", Run: signExtendAmount},
+			{ID: "C02.R10", Floor: 4, Doc: "element loops of the tuple / UDT decoders consume every element they pass over (=C12.R11)", Run: c12r11},
+			{ID: "C02.R11", Floor: 6, Doc: "duration vints: zig-zag terms, length, marker and payload order agree with the specification on their finite domains (=C12.R6)", Run: c12r6},
 		},
 		Variants: []Variant{{Name: "linux/386", GOARCH: "386"}},
 	})
